@@ -188,14 +188,29 @@ def concretize(x, what="shape"):
 
 def new_object(cls, **fields):
     """a fresh instance of cls with exactly these attributes (no constructor is run)."""
+    from .values import SObj, canonical, canon_entry
     c = sym.ctx()
     if c is None:
         o = cls.__new__(cls)
         for k, v in fields.items():
             object.__setattr__(o, k, v)
+        return canonical_native(o)
+    o = SObj(cls, fields, fresh=True)
+    from .path import RaiseEx, Infeasible
+    try:
+        return canonical(o)
+    except RaiseEx:
+        raise Infeasible()
+
+
+def canonical_native(o):
+    """native replay: rebuild registered classes through their real constructor"""
+    from .values import canon_entry
+    ent = canon_entry(type(o))
+    if ent is None or any(f not in vars(o) for f in ent[1]):
         return o
-    from .values import SObj
-    return SObj(cls, fields, fresh=True)
+    from .engine import NativeInterp
+    return ent[2](NativeInterp(), type(o), {f: vars(o)[f] for f in ent[1]})
 
 
 def is_instance(x, cls):
